@@ -58,11 +58,21 @@ import (
 // scripted lower connection
 
 type script struct {
-	next []byte
-	err  error
+	next  []byte
+	err   error
+	calls int // Read calls since the harness armed the connection for one wrapper Read
 }
 
+// wouldBlock is raised when the wrapper asks the lower connection for more within one Read although the lower
+// connection has already answered: a real connection would block there (nothing more has arrived), with the bytes of
+// the first answer held back from the caller.
+type wouldBlock struct{}
+
 func (s *script) Read(b []byte) (int, error) {
+	s.calls++
+	if s.calls > 1 {
+		panic(wouldBlock{})
+	}
 	if s.err != nil {
 		return 0, s.err
 	}
@@ -353,6 +363,10 @@ func (r *runner) do(o op) (f *finding) {
 			if o.K == "read" {
 				r.k += o.N
 			}
+			if _, ok := p.(wouldBlock); ok {
+				f = &finding{"read-waits-for-more-although-data-arrived", fmt.Sprintf("%s at stream offset %d: the lower connection answered the first Read; the wrapper did not return but read again, which blocks until the client sends more", o.K, r.k)}
+				return
+			}
 			f = &finding{"wrapper-panicked", fmt.Sprintf("%s at stream offset %d panicked: %v", o.K, r.k, p)}
 		}
 	}()
@@ -362,16 +376,18 @@ func (r *runner) do(o op) (f *finding) {
 			panic(mc.HarnessError{Msg: fmt.Sprintf("read of %d at %d beyond stream of %d", o.N, r.k, len(r.s.data))})
 		}
 		want := r.s.data[r.k : r.k+o.N]
-		r.sc.next, r.sc.err = want, nil
+		r.sc.next, r.sc.err, r.sc.calls = want, nil, 0
 		b := r.buffer(o.N + o.Pad)
 		n, err := r.obj.Read(b)
 		at := r.k
 		r.k += o.N
+		if n != o.N || err != nil {
+			left := len(r.sc.next)
+			r.sc.next = nil
+			return &finding{"read-result-not-passed-through", fmt.Sprintf("lower conn had %d bytes for a caller buffer of %d at offset %d (one Read would return (%d, nil)); wrapper returned (%d, %v) and left %d bytes unread", o.N, len(b), at, o.N, n, err, left)}
+		}
 		if len(r.sc.next) != 0 {
 			panic(mc.HarnessError{Msg: "scripted conn was not drained by one Read"})
-		}
-		if n != o.N || err != nil {
-			return &finding{"read-result-not-passed-through", fmt.Sprintf("lower conn returned (%d, nil) at offset %d, wrapper returned (%d, %v)", o.N, at, n, err)}
 		}
 		if !bytes.Equal(b[:o.N], want) {
 			return &finding{"read-bytes-modified", fmt.Sprintf("read of %d bytes at offset %d: reader above got %s, client sent %s", o.N, at, hexHead(b[:o.N]), hexHead(want))}
@@ -382,7 +398,7 @@ func (r *runner) do(o op) (f *finding) {
 			}
 		}
 	case "read0":
-		r.sc.next, r.sc.err = nil, nil
+		r.sc.next, r.sc.err, r.sc.calls = nil, nil, 0
 		n, err := r.obj.Read(r.buffer(8))
 		if n != 0 || err != nil {
 			return &finding{"read-result-not-passed-through", fmt.Sprintf("lower conn returned (0, nil) at offset %d, wrapper returned (%d, %v)", r.k, n, err)}
@@ -392,7 +408,7 @@ func (r *runner) do(o op) (f *finding) {
 		if o.K == "timeout" {
 			want = errTimeout
 		}
-		r.sc.next, r.sc.err = nil, want
+		r.sc.next, r.sc.err, r.sc.calls = nil, want, 0
 		n, err := r.obj.Read(r.buffer(8))
 		if n != 0 || err != want {
 			return &finding{"read-result-not-passed-through", fmt.Sprintf("lower conn returned (0, %v) at offset %d, wrapper returned (%d, %v)", want, r.k, n, err)}
